@@ -12311,6 +12311,14 @@ CK_RV SoftHSM::getDSAPublicKey(DSAPublicKey* publicKey, Token* token, OSObject* 
 		value = key->getByteStringValue(CKA_VALUE);
 	}
 
+	// A key without these components cannot be used; the crypto
+	// backends would dereference the missing values
+	if (prime.size() == 0 || subprime.size() == 0 || generator.size() == 0 || value.size() == 0)
+	{
+		ERROR_MSG("The DSA public key object lacks a domain parameter or the value");
+		return CKR_GENERAL_ERROR;
+	}
+
 	publicKey->setP(prime);
 	publicKey->setQ(subprime);
 	publicKey->setG(generator);
